@@ -138,6 +138,7 @@ def serial_send_units(prop):
 
 
 REPORT_BOUND = {"n": 4}
+_building_for_c18 = False
 
 
 def units(tier):
@@ -151,7 +152,8 @@ def units(tier):
 
     # ------------------------------------------------------------ Tridonic HID: reports -> response
     for vname, twice, rc in FLAG_VARIANTS:
-        def r_tri(ctx, interp, fn, twice=twice, rc=rc):
+      for burst_mode in (None, "first") if tier != "thorough" else (None, "any"):
+        def r_tri(ctx, interp, fn, twice=twice, rc=rc, burst_mode=burst_mode):
             world = World(ctx, interp)
             install(interp, world)
             cmd, fr = abstract_command(ctx, 16 if ctx.bool("is16") else 24, twice, rc)
@@ -176,24 +178,61 @@ def units(tier):
                 data = body + [0, 0, seq] + [0] * 55
                 return (kind, v), (bytes(data) if ctx.native else SBytes(data))
 
+            lost_wakeups = []
+            bursts = []
+
             def env(event):
                 targets = [msgs for key, (ev, msgs) in entries(outstanding) if ev is event]
-                if len(delivered) >= REPORT_BOUND["n"] or not targets:
+                if any(len(m) > 0 for m in targets):
+                    # the sender goes to sleep although a report for it is already queued: it may never be woken again
+                    lost_wakeups.append(len(delivered))
+                if len(delivered) >= (REPORT_BOUND["n"] if burst_mode != "first" else 3) or not targets:
                     return
-                k = ctx.choose_int(ctx.fresh_int("report_kind", 0, 4), "report kind")
-                if k == 4:
-                    item = ("fail", None), "fail"
-                else:
-                    item = report(["sent", "value", "silent", "garbled"][k])
-                delivered.append(item[0])
-                for msgs in targets:
-                    msgs.append(item[1])
+                # the reader may hand over one report, or two at once (both were already waiting in the device file)
+                burst = 1
+                if burst_mode == "first" and not bursts:
+                    burst = 2
+                    bursts.append(0)
+                elif burst_mode == "any":
+                    if ctx.fresh_bool("burst") if ctx.native else ctx.fork(ctx.fresh_bool("burst").e):
+                        burst = 2
+                for _ in range(burst):
+                    if len(delivered) >= REPORT_BOUND["n"]:
+                        break
+                    k = ctx.choose_int(ctx.fresh_int("report_kind", 0, 4), "report kind")
+                    echoes = len([d for d in delivered if d[0] == "sent"])
+                    if k == 0 and echoes >= (2 if twice else 1):
+                        ctx.assume(False)       # a conforming gateway echoes each transmission once
+                    if k == 4:
+                        item = ("fail", None), "fail"
+                    else:
+                        item = report(["sent", "value", "silent", "garbled"][k])
+                    delivered.append(item[0])
+                    for msgs in targets:
+                        msgs.append(item[1])
                 event.flag = True
             world.hooks["event"] = env
             out = world.run(HID.tridonic._send_raw, drv, cmd)
+            ctx.prove("never-sleeps-while-a-report-for-it-is-queued", len(lost_wakeups) == 0,
+                      detail="after %r reports the sender waited with a report still queued (lost wake-up: it can hang "
+                             "holding the transaction lock)" % (lost_wakeups[:1],))
             if out[0] == "blocked":
                 return
             ctx.cover()
+            # the reports the driver has to act on: those up to the point where the exchange is complete (every
+            # transmission echoed and one outcome seen) or the gateway is lost; later ones of the same burst are left over
+            need, have_answer, used = (2 if twice else 1), False, []
+            for d in delivered:
+                if need <= 0 and have_answer:
+                    break
+                used.append(d)
+                if d[0] == "fail":
+                    break
+                if d[0] == "sent":
+                    need -= 1
+                else:
+                    have_answer = True
+            delivered = used
             kinds = [d[0] for d in delivered]
             if "fail" in kinds:
                 ctx.prove("lost-gateway-gives-CommunicationError", out[0] == "raise" and issubclass(out[1], CommunicationError),
@@ -209,7 +248,7 @@ def units(tier):
             expect = {"value": ("value", last[1]), "silent": ("silent",), "garbled": ("garbled", None)}[last[0]]
             check_response(ctx, interp, out, rc, expect)
             ctx.prove("in-flight-slot-released", not has_key(interp, outstanding, seq))
-        unit("tridonic/_send_raw/%s" % vname, r_tri)
+        unit("tridonic/_send_raw/%s%s" % (vname, "/burst" if burst_mode else ""), r_tri)
 
     # routing of reports by sequence number
     def r_route(ctx, interp, fn):
@@ -299,6 +338,20 @@ def units(tier):
                       detail="%d requests sent, %d replies read" % (len(sock.sent), len(sock.replies)))
             ctx.prove("never-reads-a-reply-that-was-not-requested", sock.reads_ahead == 0)
         unit("daliserver/persistent-connection/%s" % name, r_ds)
+
+    # ------------------------------------------------------------ daliserver: status byte -> typed response (units shared with C18)
+    import checks.c18 as C18
+    if _building_for_c18:
+        return U
+    C18._building_for_c16 = True
+    try:
+        c18_units = C18.units(tier)
+    finally:
+        C18._building_for_c16 = False
+    for u18 in c18_units:
+        if u18.name.startswith("C18/daliserver/send/") and "length" not in u18.name and "24-bit" not in u18.name:
+            U.append(Unit("C16/" + u18.name[len("C18/"):], "C16", None, None, use=u18.use, width=72, kind="custom",
+                          runner=u18.runner, max_paths=200000))
     return U
 
 
@@ -403,6 +456,7 @@ def extra_checks(tier, seed):
 
 # checks whose proof units establish the callee contracts applied here (re-verified by this check, see main.dependency_units)
 DEPENDENCIES = ['C04', 'C05']
+INCLUDES = ['C19']      # the serial answers reach send() through the receivers verified there
 
 META = {
     "level": "proof",
